@@ -91,6 +91,11 @@ theorem tie_option_tables :
     Gen.StoreWrite.cmdPassesOptions = true := by
   refine ⟨?_, ?_, ?_, ?_, ?_, ?_⟩ <;> decide
 
+/-- validateWriteRequest checks object, relation and user of every delete key (so that no key with an empty part
+    reaches a datastore whose `match` reads it as a wildcard) -/
+theorem tie_cmd_delete_validation :
+    Gen.StoreWrite.cmdDeleteValidators = ["IsValidObject", "IsValidRelation", "IsValidUser"] := by decide
+
 /-- one batch per statement kind covers every request the API admits -/
 theorem tie_batch_size : Gen.StoreWrite.defaultMaxTuplesPerWrite = 100 := by decide
 
@@ -158,6 +163,20 @@ theorem sql_write_eq_spec (ceq : TupleRec → TupleRec → Bool) (db : Db) (dels
     sqlWrite ceq genCfg db dels writes o now none
       = toDbResult db (specWrite ceq true normCond db.committed dels writes o now) :=
   sqlWrite_eq_spec ceq genCfg tie_sql_all_in_txn.1 db dels writes o now hnd hst
+
+/-- **sql_atomic, second half: after COMMIT the state equals memory.Write's** (same verdict, same tuples in the same
+    order as `Read` shows them, changelogs equal as multisets of (tuple, operation) with equal length: only the order
+    of the new delete entries may differ, request order vs store order) -/
+theorem sql_commit_equals_memWrite (ceq : TupleRec → TupleRec → Bool) (s : StoreState) (dels : List TupleKey)
+    (writes : List TupleRec) (o : WriteOpts) (now : Nat) (h : ReqOK dels writes) (hs : (s.tuples.map (·.key)).Nodup) :
+    (memWrite ceq s dels writes o now).2 = (sqlWrite ceq genCfg { committed := s } dels writes o now none).2 ∧
+    (sqlWrite ceq genCfg { committed := s } dels writes o now none).1.committed.tuples.map normCond
+      = (memWrite ceq s dels writes o now).1.tuples.map normCond ∧
+    ((sqlWrite ceq genCfg { committed := s } dels writes o now none).1.committed.changes.map payload).Perm
+      ((memWrite ceq s dels writes o now).1.changes.map payload) ∧
+    (sqlWrite ceq genCfg { committed := s } dels writes o now none).1.committed.changes.length
+      = (memWrite ceq s dels writes o now).1.changes.length :=
+  sql_commit_equals_memWrite_gen ceq genCfg tie_sql_all_in_txn.1 s dels writes o now h hs
 
 /-- the model really needs the source facts: were the changelog INSERT not run on the transaction, a failing COMMIT
     would leave changelog rows behind -/
@@ -376,8 +395,8 @@ theorem parseOption_table (w : String) :
 /-- what passes `WriteCommand.Execute`'s front end has no key twice — the hypothesis of the SQL theorems — and its
     options were parsed by the table -/
 theorem cmdFront_ok (dels : List TupleKey) (writes : List TupleRec) (onDup onMiss : String) (o : WriteOpts)
-    (h : cmdFront Gen.StoreWrite.onDuplicateTable Gen.StoreWrite.onMissingTable dels writes onDup onMiss = .ok o) :
-    (dels ++ writes.map (·.key)).Nodup ∧
+    (h : cmdFront Gen.StoreWrite.onDuplicateTable Gen.StoreWrite.onMissingTable true dels writes onDup onMiss = .ok o) :
+    (dels ++ writes.map (·.key)).Nodup ∧ (∀ k ∈ dels, validDeleteKey k = true) ∧
     (o.ignoreDup = true ↔ onDup = "ignore") ∧ (o.ignoreMissing = true ↔ onMiss = "ignore") ∧
     (onDup = "" ∨ onDup = "error" ∨ onDup = "ignore") ∧ (onMiss = "" ∨ onMiss = "error" ∨ onMiss = "ignore") := by
   rw [tie_option_tables.1, tie_option_tables.2.1] at h
@@ -387,24 +406,50 @@ theorem cmdFront_ok (dels : List TupleKey) (writes : List TupleRec) (onDup onMis
   · cases h
   · split at h
     · cases h
-    · rename_i hdup
-      have hnd := (hasDupKeys_false_iff _).mp (by simpa using hdup)
-      refine ⟨hnd, ?_⟩
-      by_cases d1 : onDup = "" <;> by_cases d2 : onDup = "error" <;> by_cases d3 : onDup = "ignore" <;>
+    · split at h
+      · cases h
+      · rename_i hval hdup
+        have hnd := (hasDupKeys_false_iff _).mp (by simpa using hdup)
+        have hv : ∀ k ∈ dels, validDeleteKey k = true := by
+          intro k hk
+          have : dels.any (fun k => !validDeleteKey k) = false := by simpa using hval
+          have := List.any_eq_false.mp this k hk
+          simpa using this
+        refine ⟨hnd, hv, ?_⟩
+        by_cases d1 : onDup = "" <;> by_cases d2 : onDup = "error" <;> by_cases d3 : onDup = "ignore" <;>
       by_cases m1 : onMiss = "" <;> by_cases m2 : onMiss = "error" <;> by_cases m3 : onMiss = "ignore" <;>
       simp [d1, d2, d3, m1, m2, m3] at h <;> (try subst h) <;> simp_all
 
 /-- every other word for on_duplicate / on_missing is rejected before the datastore is touched -/
 theorem cmdFront_bad_option (dels : List TupleKey) (writes : List TupleRec) (onDup onMiss : String)
-    (hne : ¬ (dels.isEmpty && writes.isEmpty) = true) (hnd : hasDupKeys (dels ++ writes.map (·.key)) = false)
+    (hne : ¬ (dels.isEmpty && writes.isEmpty) = true) (hval : ∀ k ∈ dels, validDeleteKey k = true)
+    (hnd : hasDupKeys (dels ++ writes.map (·.key)) = false)
     (hbad : (onDup ≠ "" ∧ onDup ≠ "error" ∧ onDup ≠ "ignore") ∨ (onMiss ≠ "" ∧ onMiss ≠ "error" ∧ onMiss ≠ "ignore")) :
-    cmdFront Gen.StoreWrite.onDuplicateTable Gen.StoreWrite.onMissingTable dels writes onDup onMiss = .error .cmdBadOption := by
+    cmdFront Gen.StoreWrite.onDuplicateTable Gen.StoreWrite.onMissingTable true dels writes onDup onMiss = .error .cmdBadOption := by
   rw [tie_option_tables.1, tie_option_tables.2.1]
   unfold cmdFront
-  rw [if_neg hne, if_neg (by simp [hnd]), parseOption_table, parseOption_table]
+  have hv : ¬ ((true && dels.any (fun k => !validDeleteKey k)) = true) := by
+    simp only [Bool.true_and, List.any_eq_true, not_exists, not_and]
+    intro k hk; simp [hval k hk]
+  rw [if_neg hne, if_neg hv, if_neg (by simp [hnd]), parseOption_table, parseOption_table]
   rcases hbad with ⟨a, b, c⟩ | ⟨a, b, c⟩
   · simp [a, b, c]
   · by_cases d1 : onDup = "" <;> by_cases d2 : onDup = "error" <;> by_cases d3 : onDup = "ignore" <;> simp [a, b, c, d1, d2, d3]
+
+/-- a delete key with an empty object id, an empty relation or a userset-style object never reaches the datastore -/
+theorem cmdFront_rejects_odd_delete_key (dupT missT : List (String × Bool)) (dels : List TupleKey) (writes : List TupleRec)
+    (onDup onMiss : String) (k : TupleKey) (hk : k ∈ dels) (hbad : k.objId = "" ∨ k.objType = "" ∨ k.relation = "") :
+    cmdFront dupT missT true dels writes onDup onMiss = .error .cmdInvalidKey := by
+  unfold cmdFront
+  have hne : ¬ (dels.isEmpty && writes.isEmpty) = true := by
+    cases dels with
+    | nil => cases hk
+    | cons _ _ => simp
+  have hv : (true && dels.any (fun k => !validDeleteKey k)) = true := by
+    simp only [Bool.true_and, List.any_eq_true]
+    refine ⟨k, hk, ?_⟩
+    rcases hbad with h | h | h <;> simp [validDeleteKey, h]
+  rw [if_neg hne, if_pos hv]
 
 /-! ## non-vacuity -/
 
